@@ -51,7 +51,7 @@ TECHNIQUE = ("property-based testing (Hypothesis): model-based oracle over gener
 
 
 def cases(tier):
-    return 2400 if tier == "quick" else 240000
+    return 2400 if tier == "quick" else 80000
 
 
 def strategy(hazards):
